@@ -62,6 +62,11 @@ class _Rewriter(ast.NodeTransformer):
 
     def visit_Call(self, node):
         self.generic_visit(node)
+        if "fstr" in self.opts and isinstance(node.func, ast.Attribute) and node.func.attr == "format" \
+                and isinstance(node.func.value, ast.Constant) and isinstance(node.func.value.value, str) and not node.keywords:
+            self.count["format"] = self.count.get("format", 0) + 1
+            return ast.copy_location(ast.Call(func=ast.Name(id="__vformat__", ctx=ast.Load()),
+                                              args=[node.func.value] + node.args, keywords=[]), node)
         if "join" in self.opts and isinstance(node.func, ast.Attribute) and node.func.attr == "join" \
                 and len(node.args) == 1 and not node.keywords:
             self.count["join"] = self.count.get("join", 0) + 1
@@ -256,7 +261,21 @@ def vjoin(sep, parts):
     return sep.join(parts)
 
 
-HOOKS = {"__vfmt__": vfmt, "__vfstr__": vfstr, "__vidx__": vidx, "__vjoin__": vjoin, "__vdict__": dict}
+def vformat(fmt, *args):
+    """'lit {} lit {}'.format(a, b) with plain '{}' fields"""
+    if not any(isinstance(a, (SStr, SInt, ZInt, SBytes)) for a in args):
+        return fmt.format(*args)
+    parts = fmt.split("{}")
+    if len(parts) != len(args) + 1 or "{" in "".join(parts) or "}" in "".join(parts):
+        raise Unsupported("str.format model: only plain '{}' fields")
+    items = [parts[0]]
+    for a, p in zip(args, parts[1:]):
+        items.append((a, -1, ""))
+        items.append(p)
+    return vfstr(items)
+
+
+HOOKS = {"__vformat__": vformat, "__vfmt__": vfmt, "__vfstr__": vfstr, "__vidx__": vidx, "__vjoin__": vjoin, "__vdict__": dict}
 
 
 def instrument(func, opts=("fmt", "fstr", "idx"), owner=None, extra=None, hooks=None):
